@@ -76,6 +76,7 @@ def run(tier="quick", seed=0):
                 stats_w2 = all(pa[j] is pb[j] for j in range(l))
                 if (a not in pa) or (stats_w2 and len(pa) != len(pb)):
                     v("C25/pile-precondition-of-exen-contract", dict(a=a.name, b=b2.name), [x.name for x in pa], [x.name for x in pb])
+        piles0 = {b.name: [x.name for x in b.pile] for b in boxes}      # Box.pile is a cached list: a run must leave it as it was
         plan = {}
         state = dict(cycle=0)
         failing = {}
@@ -139,6 +140,9 @@ def run(tier="quick", seed=0):
             evals += 1
             if got != exp:
                 v("C25/end-exits-bottom-up-once", inp, got[:10], exp[:10], "end-order" if sorted(got) == sorted(exp) and len(active) > 1 else "")
+            changed = {b.name: [x.name for x in b.pile] for b in boxes if [x.name for x in b.pile] != piles0[b.name]}
+            if changed:
+                v("C25/a-run-changed-a-boxs-pile", inp, changed, {k: piles0[k] for k in changed})
         distinct.add(repr(inp))
         if it < 2:
             samples.append(inp)
